@@ -168,8 +168,11 @@ class AbsoluteModelRef:
     """
 
     class Context:
-        data = threading.local()
-        data.context: ContextInjectionType = None
+        class _Data(threading.local):
+            # class-level default: visible in every thread, not only in the one that imported this module
+            context: ContextInjectionType = None
+
+        data = _Data()
 
         def __init__(self, patches: ContextInjectionType):
             self.context: ContextInjectionType = patches
